@@ -257,7 +257,7 @@ def run(tier, seed, replay=None):
                 "http://x/y", "a://b", "x:/y", "://", "/a://b", "~/a://b", "a=b", "./", "x/", "//x", "~x/", "é/x", "a b/c"]
         for t in toks + [rc.rand_text(rng, 6) for _ in range(300 if quick else 3000)]:
             real = C._classify_token(t)
-            mv = mcall(["classify", t])
+            mv = mcall(["classify_token", t])
             out.case(["cl", t])
             out.count("classify", real)
             if mv != real:
